@@ -142,7 +142,8 @@ TABLE = {
     'transform|overflow:Add|(idx+1)': ('idx < modules.len() <= isize::MAX', None),
     # ---- connections
     'transform_connection_endpoint_inner|panic|panic_fmt|accessors must be non-empty':
-        ('callers pass ConnectionEndpointDef::accessors (str::split yields >= 1 element) or accessors[1..] of a slice with len >= 2', None),
+        ('callers pass ConnectionEndpointDef::accessors (str::split yields >= 1 element, and no element is filtered away) or accessors[1..] of a slice with len >= 2',
+         lambda f, b: _accessors_nonempty(f)),
     'transform_connection_endpoint_inner|bounds|0': ('accessors[0] after the non-empty assertion', None),
     'transform_connection_endpoint_inner|index|accessors|rangefrom':
         ('accessors[1..] in the else-branch of len() == 1 of a non-empty slice',
@@ -151,7 +152,8 @@ TABLE = {
     'transform_module|index|ident.args|each(range)': ('i ranges over 0..ident.args.len() and j over (i+1)..ident.args.len()', None),
     'transform_module|overflow:Add|(each(range)+1)': ('i < ident.args.len() <= isize::MAX', None),
     'transform_module|expect|get(nodes,def.inherit)|':
-        ('the parent is inserted into required_symbols last (after bindings are removed), and the ordering loop only admits a module once every required symbol is provided', None),
+        ('the parent is inserted into required_symbols last (after bindings are removed), and the ordering loop only admits a module once every required symbol is provided',
+         lambda f, b: _inherit_required_last(f)),
     # ---- transform_submodule
     'transform_submodule|expect|get(nodes,inner_ty_to_outer_ty(ident))|':
         ('the submodule type (or, for a binding, its bound) is in required_symbols of the enclosing module, hence already transformed', None),
@@ -163,7 +165,37 @@ TABLE = {
 }
 
 
+def _accessors_nonempty(f):
+    """ConnectionEndpointDef::from_str builds `accessors` from every element of a str::split (never empty), nothing filtered out"""
+    P = f.prog if hasattr(f, 'prog') else None
+    g = _PROG.fns.get('<des_net_utils::ndl::def::ConnectionEndpointDef as std::str::FromStr>::from_str')
+    if g is None:
+        return False
+    scope = [g] + _PROG.closures_of(g)
+    calls = [s for h in scope for s in h.calls()]
+    has_split = any(s.name.endswith('::split') and 'str' in s.name for s in calls)
+    shrinking = [s for s in calls if s.name.split('::')[-1] in ('filter', 'filter_map', 'skip', 'skip_while', 'take', 'take_while', 'step_by', 'dedup', 'retain', 'pop', 'truncate', 'remove', 'flat_map', 'flatten')]
+    return has_split and not shrinking
+
+
+def _inherit_required_last(f):
+    """ModuleDef::required_symbols adds the parent after the generic bindings were subtracted"""
+    g = _PROG.fns.get('des_net_utils::ndl::def::ModuleDef::required_symbols')
+    if g is None:
+        return False
+    ext = [s for s in g.calls() if s.name.split('::')[-1] in ('extend', 'insert') and any(x[0] == 'field' and x[2] == 'inherit' for x in walk(g.expr_operand(s.args[1], s.b, 'T')))]
+    rem = [s for s in g.calls() if s.name.split('::')[-1] in ('remove', 'retain', 'clear', 'take', 'difference')]
+    if len(ext) != 1:
+        return False
+    return all(r.b not in g.reach_from(ext[0].b) for r in rem) and not any(set(g.loops_containing(r.b)) & set(g.loops_containing(ext[0].b)) for r in rem)
+
+
+_PROG = None
+
+
 def r1_panic_inventory(ctx):
+    global _PROG
+    _PROG = ctx.P
     ctx.set_rule('C18.R1')
     P = ctx.P
     rs = roots(P)
